@@ -8,7 +8,7 @@ class P(Property):
     gen_targets = ["Funfit", "Kernels", "RfaGlue"]
 
     def units(self, tier):
-        return [RfaUnit(("C05",)), FunfitUnit()]
+        return [RfaUnit(("C05",)), FunfitUnit(), AdaptiveWindowsUnit()]
 
 
 PROPERTY = P()
